@@ -30,7 +30,10 @@ def hunks_to_edits(patch):
                     old.append(h[1:] if h.startswith(' ') else h)
                     new.append(h[1:] if h.startswith(' ') else h)
                 i += 1
-            edits.append({'file': cur_file, 'old': '\n'.join(old) + '\n', 'new': '\n'.join(new) + '\n'})
+            if not old and cur_file and not os.path.exists(os.path.join('/repo', cur_file)):
+                edits.append({'file': cur_file, 'old': '', 'new': '\n'.join(new) + '\n', 'create': True})
+            else:
+                edits.append({'file': cur_file, 'old': '\n'.join(old) + '\n', 'new': '\n'.join(new) + '\n'})
             continue
         i += 1
     return edits
